@@ -2,7 +2,12 @@
 
 package common
 
-import "strconv"
+import (
+	"io"
+	"strconv"
+)
+
+var vEOF = io.EOF
 
 // Native implementations of the harness vocabulary. The symbolic engine (gosx) intercepts calls
 // to these functions and never executes their bodies; the native build uses them to replay a
@@ -85,3 +90,45 @@ func vMonitorEnd() int       { return 0 }
 func vMonitorAllow(b []byte) {}
 func vMonitorMsg() string    { return "" }
 func vMapOrder(rev bool)     {}
+
+// vReader is an in-memory reader that exposes Bytes() (so parse.NewInput uses the slice directly, which is
+// how minify.M.Bytes hands data to the minifiers) and can fail after FailAfter bytes when UseRead is set.
+type vReader struct {
+	b   []byte
+	pos int
+}
+
+func (r *vReader) Bytes() []byte { return r.b[r.pos:] }
+func (r *vReader) Read(p []byte) (int, error) {
+	if r.pos >= len(r.b) {
+		return 0, vEOF
+	}
+	n := copy(p, r.b[r.pos:])
+	r.pos += n
+	return n, nil
+}
+
+// vWriter collects output; from its FailFrom-th call on (1-based, 0 = never) every Write fails.
+type vWriter struct {
+	buf      []byte
+	calls    int
+	FailFrom int
+	failed   bool
+}
+
+func (w *vWriter) Write(p []byte) (int, error) {
+	w.calls++
+	if w.FailFrom > 0 && w.calls >= w.FailFrom {
+		w.failed = true
+		return 0, vErrWrite
+	}
+	w.buf = append(w.buf, p...)
+	return len(p), nil
+}
+
+type vError struct{ s string }
+
+func (e *vError) Error() string { return e.s }
+
+var vErrWrite error = &vError{"verif: write failed"}
+var vErrRead error = &vError{"verif: read failed"}
